@@ -493,13 +493,13 @@ func (t TypeHandle) HasType(c ast.Constant) bool {
 		})
 		return e == nil && err == nil
 	case StructType.Symbol:
-		if c.IsStructNil() {
-			return len(tpe.Args) == 0
-		}
 		fieldTpeMap := make(map[ast.Constant]TypeHandle)
 		requiredArgs, err := StructTypeRequiredArgs(tpe)
 		if err != nil {
 			return false
+		}
+		if c.IsStructNil() {
+			return len(requiredArgs) == 0
 		}
 		for i := 0; i < len(requiredArgs); i++ {
 			key := requiredArgs[i].(ast.Constant)
@@ -529,7 +529,16 @@ func (t TypeHandle) HasType(c ast.Constant) bool {
 		}, func() error {
 			return nil
 		})
-		return e == nil && err == nil && len(fieldTpeMap) == len(seen)
+		if e != nil || err != nil {
+			return false
+		}
+		// All required fields must be present; optional fields may be absent.
+		for i := 0; i < len(requiredArgs); i += 2 {
+			if !seen[requiredArgs[i].(ast.Constant)] {
+				return false
+			}
+		}
+		return true
 	case UnionType.Symbol:
 		for _, arg := range tpe.Args {
 			alt := TypeHandle{arg, t.ctx}
